@@ -17,6 +17,10 @@ RULE = ("object scripts: random histories of ctor/copy/move/assign/move-assign/r
         "Mat histories with invert: in-place invert / transpose / *= / reset inside copy, move, assign chains between "
         "objects of equal and different sizes (fixed chains for n=1..3 against 6 other shapes + random histories), every "
         "object's value followed with exact rationals; non-trivial = a copy of an inverted object is inverted again; "
+        "objhist: random histories of SymMat / Vec / Mat objects (construct, copy, move, assign, reset, element write, set_all, "
+        "*=, +=, -=, in-place cholDec / invert) that contain THROWING lines (dimension guards, SymMat(r,c) with r != c, invert / "
+        "cholDec of an indefinite matrix, exactly singular Mat, Vec(-1), a+b of different dimensions), each caught, followed by "
+        "dumps of every object; non-trivial = at least one dump after a caught throw; "
         "algebra: every operator on all dimension pairs 0..N (N=3 quick, 4 thorough), on shape pairs with equal element "
         "count but different shape (2x3/3x2, 1x4/2x2, 0x3/2x0, ...) for every member and non-member variant, and exhaustively on all operands "
         "with entries in {-1,0,1,2} for the tiny shapes, random small-integer / dyadic operands beyond; "
@@ -63,10 +67,11 @@ LEVEL_NOTE = ("Trusted: Lean kernel, statements in Props/C15.lean, C15SvdDecompo
               "transmat_sum_shape; TransMat*TransMat stride cb8c13f and TransVec*MatBase bound ef27491: regression examples; "
               "memcpy(nullptr,..,0) 87f5175: no_null_memcpy; SymMat of dimension 0 45f8c0a). Regenerated loops: the seven "
               "vector-valued kernels of C15_kernels_source_tie (round 9) and the nine of C15_matrix_kernels_source_tie (round 10: "
-              "Mat*Mat pointer version, the three TransMat products, trans(TransMat), mul/add/sub/*=); Mat*SymMat, SymMat*SymMat, free "
+              "Mat*Mat pointer version, the three TransMat products, trans(TransMat), mul/add/sub/*=) and Mat*SymMat (round 12: "
+              "C15_mat_symmat_source_tie, packed-triangle walk; value C15_mat_symmat_value = A * Square(B)); SymMat*SymMat, free "
               "SymMat + - += -=, Mat(TransMat), Mat+-TransMat, SymMat::cholDec/invert, Mat::invert are hand models behind regenerated "
-              "guards + correspondence; value theorems for MatBase*Vec, TransVec*MatBase (accessor variants) and Mat*SymMat are "
-              "missing (guard, in-bounds and, for the first two, source tie only); sums and scalar multiples of the single classes "
+              "guards + correspondence; the accessor variants MatBase*Vec, TransVec*MatBase return what the pointer loops return on the "
+              "view of a Mat / TransMat (C15_accessor_variants_value); sums and scalar multiples of the single classes "
               "are not composed from the primitives' value theorem. The object stores (MatObj, SymObj, VecObj, ObjCatch incl. what a throwing call "
               "leaves) are hand models with regenerated member lists. SVD::svd (Golub-Reinsch) is modelled statement by statement as Svd.decompose (Model/Ls/Svd/Decomp.lean; "
               "executed next to the C++ by drv_ls in C01's check, not in this one) and proved to return a factorisation whenever "
@@ -88,7 +93,7 @@ TRUSTED = ["harness/c15_matvec.cpp: counting replacements of operator new[]/dele
            "a guard nested under a condition, a spurious throw, a class matched by NAME are not noticed)",
            "translators tools/gen/c15_members.py, c15_members2.py (data members of Mat / SymMat / Vec class chains, declared "
            "destructors, copies and moves, the initialisation of Mat::pentry -> Gen/MatMembers, Gen/SymVecMembers)",
-           "translator tools/gen/c15_kernels.py on the C front end tools/gen/cfun.py (sixteen functions statement by statement -> "
+           "translator tools/gen/c15_kernels.py on the C front end tools/gen/cfun.py (seventeen functions statement by statement -> "
            "Gen/MatVecKernels; any other statement form stops the run)"]
 MODELLED = ["IEEE rounding (theorems over ordered fields; Float instance compared with tolerance)",
             "indeterminate content of new Float[n] (model: a fixed placeholder; never observed before written)",
